@@ -284,6 +284,11 @@ pub enum RephPlacement {
     /// The text is outside the syllable grammar (or is the one ambiguous shape): only
     /// conservation is judged.
     NotJudged(&'static str),
+    /// The final syllable carries a two-part vowel sign typed as its two parts (E + AA, E + AU
+    /// length mark: canonically one sign, two code points): the statement can be read both
+    /// ways, so the start of the final conjunct and the end of the text are both accepted -
+    /// but nothing in between (never between the two parts).
+    Either(usize, usize),
 }
 
 /// Parses `p` with the grammar
@@ -295,6 +300,7 @@ pub fn reph_placement(p: &str) -> RephPlacement {
     let mut i = 0;
     // (start byte offset, is consonant-cluster syllable, cluster has vowel sign)
     let mut last_syll: Option<(usize, bool, bool)> = None;
+    let mut last_two_part = false;
     let mut prev_cluster_without_vowel = false;
     while i < n {
         let (off, c) = cs[i];
@@ -304,14 +310,20 @@ pub fn reph_placement(p: &str) -> RephPlacement {
                 j += 2;
             }
             let mut has_kar = false;
+            let mut two_part = false;
             if j < n && is_mapped_kar(cs[j].1) {
                 has_kar = true;
                 j += 1;
+                if cs[j - 1].1 == '\u{09C7}' && j < n && (cs[j].1 == '\u{09BE}' || cs[j].1 == '\u{09D7}') {
+                    two_part = true;
+                    j += 1;
+                }
             }
             if j < n && cs[j].1 == CHANDRABINDU {
                 j += 1;
             }
             last_syll = Some((off, true, has_kar));
+            last_two_part = two_part;
             prev_cluster_without_vowel = !has_kar && cs[j - 1].1 != CHANDRABINDU;
             i = j;
         } else if is_independent_vowel(c) {
@@ -324,6 +336,7 @@ pub fn reph_placement(p: &str) -> RephPlacement {
                 j += 1;
             }
             last_syll = Some((off, false, false));
+            last_two_part = false;
             prev_cluster_without_vowel = false;
             i = j;
         } else if c.is_ascii_punctuation()
@@ -333,6 +346,7 @@ pub fn reph_placement(p: &str) -> RephPlacement {
             || c == '\u{0965}'
         {
             last_syll = Some((off, false, false));
+            last_two_part = false;
             prev_cluster_without_vowel = false;
             i += 1;
         } else {
@@ -341,6 +355,7 @@ pub fn reph_placement(p: &str) -> RephPlacement {
     }
     match last_syll {
         None => RephPlacement::At(0),
+        Some((off, true, _)) if last_two_part => RephPlacement::Either(off, p.len()),
         Some((off, true, _)) => RephPlacement::At(off),
         Some((_, false, _)) => RephPlacement::At(p.len()),
     }
